@@ -658,7 +658,17 @@ func (s *situ) estimateTx(m *tracked, who *chain.Account, v uint64) qtx {
 // pickCamp chooses a subset of the snapshot members, steered to the two-thirds boundary.
 func (s *situ) pickCamp() []*chain.Account {
 	n := len(s.members)
-	byClass := map[marginClass][]int{}
+	// bucket the subsets by margin 3*sum-2*total: -1 (tightest miss), 0 (exact), -3..-2, 1..3, far
+	const (
+		bMinus1 = iota
+		bExact
+		bShort
+		bAbove
+		bFarAbove
+		bFarBelow
+		nBuckets
+	)
+	buckets := make([][]int, nBuckets)
 	for mask := 1; mask < 1<<n; mask++ {
 		sum := new(big.Int)
 		for i := 0; i < n; i++ {
@@ -666,30 +676,40 @@ func (s *situ) pickCamp() []*chain.Account {
 				sum.Add(sum, s.snap.shares[string(s.members[i].ValAddr())])
 			}
 		}
-		c := s.snap.class(sum)
-		byClass[c] = append(byClass[c], mask)
+		mg := s.snap.margin(sum)
+		b := bFarBelow
+		switch {
+		case mg.Sign() == 0:
+			b = bExact
+		case mg.Cmp(big.NewInt(-1)) == 0:
+			b = bMinus1
+		case mg.Sign() < 0 && mg.Cmp(big.NewInt(-3)) >= 0:
+			b = bShort
+		case mg.Sign() > 0 && mg.Cmp(big3) <= 0:
+			b = bAbove
+		case mg.Sign() > 0:
+			b = bFarAbove
+		}
+		buckets[b] = append(buckets[b], mask)
 	}
-	weights := []struct {
-		c marginClass
-		w int
-	}{{mcExact, 30}, {mcOneShort, 25}, {mcJustAbove, 15}, {mcFarAbove, 15}, {mcFarBelow, 15}}
+	weights := [nBuckets]int{bMinus1: 25, bExact: 30, bShort: 15, bAbove: 15, bFarAbove: 15, bFarBelow: 10}
 	tot := 0
-	for _, w := range weights {
-		if len(byClass[w.c]) > 0 {
-			tot += w.w
+	for b, w := range weights {
+		if len(buckets[b]) > 0 {
+			tot += w
 		}
 	}
 	x := s.r.Intn(tot)
 	var mask int
-	for _, w := range weights {
-		if len(byClass[w.c]) == 0 {
+	for b, w := range weights {
+		if len(buckets[b]) == 0 {
 			continue
 		}
-		if x < w.w {
-			mask = byClass[w.c][s.r.Intn(len(byClass[w.c]))]
+		if x < w {
+			mask = buckets[b][s.r.Intn(len(buckets[b]))]
 			break
 		}
-		x -= w.w
+		x -= w
 	}
 	var camp []*chain.Account
 	for i := 0; i < n; i++ {
@@ -916,7 +936,7 @@ func runSitu(c fw.Case, rec *fw.Recorder) {
 		for i := 0; i < nMembers; i++ {
 			units = append(units, int64(1+r.Intn(7)))
 		}
-		if p.Index%3 == 2 || exactSubsetExists(units) || try > 200 {
+		if exactSubsetExists(units) || try > 200 {
 			break
 		}
 	}
@@ -924,7 +944,9 @@ func runSitu(c fw.Case, rec *fw.Recorder) {
 	for _, u := range units {
 		st := u * 1_000_000
 		if p.Index%3 == 2 {
-			st += []int64{0, 0, 1, 2, 5}[r.Intn(5)]
+			// a few single ugrain on top of an exactly-2/3-capable unit vector: margins of
+			// -2, -1, +1 shares (totals not divisible by 3)
+			st += []int64{0, 0, 1, 1, 2}[r.Intn(5)]
 		} else if p.Index%3 == 1 && r.Intn(4) == 0 {
 			st += 1
 		}
